@@ -24,6 +24,7 @@ RULE = (
 REQUIRED = ["probe.first_once", "deplete.duration", "deplete.current", "log.first_row", "log.rows", "log.time_increasing",
             "log.stops_at_first_violation", "battery.must_be_source", "deplete.every_solved_step_handed_over"]
 # battery.source_accepted is evaluated only when batt_life raises something that is not a solver failure (never on a correct tree)
+CASE_TIMEOUT = 600  # seconds; generous (a case may solve a slowly converging system a few dozen times)
 SIZES = {"quick": 90, "thorough": 400}
 ASSUMPTIONS = ["phase durations are positive (a zero-duration phase cannot advance the strictly increasing time axis)",
                "a battery that delivers no current in a system without phases is outside the quantifier (infinite time step)",
@@ -220,7 +221,15 @@ def run(ctx, case):
     # --- each deplete call ----------------------------------------------------------------------------
     twin_spec = copy.deepcopy(spec)
     tb = [c for c in twin_spec["comps"] if c["name"] == name][0]
+    import time as _time
+
+    t_start = _time.time()
     for k, (_, t, i, ret, prev) in enumerate(dcalls):
+        if _time.time() - t_start > 25.0 and k % 5 and k != len(dcalls) - 1:
+            # a slowly converging system: after 25 s only every fifth call (and the last) is compared with its twin,
+            # so that a case stays far below the watchdog limit
+            ctx.count("outcome", "slow system: deplete call not compared (sampled)")
+            continue
         ph = phases[k % len(phases)][0] if phases else ""
         tb["args"]["vo"], tb["args"]["rs"] = prev[1], prev[2]
         # the twin goes through the SAME build history (same insertion order, hence bit-identical arithmetic: in an
